@@ -21,6 +21,20 @@ CLAIMS = {
          "SEQ engine across reopen; stored-row comparison"),
  "C18": ("exploration", "name->filter assignment subsets, keep/remove/replace verdicts decided from the key, filtered and unfiltered keyspaces under random maintenance and reopen; oracle = set of contents allowed by the three-valued item model (original / filtered, sticky once observed), unfiltered keyspaces exact",
          "SEQ engine + three-valued filter model"),
+ "C02": ("fault_enumeration", "random write workloads (single writes, batches, transactions, clears, keyspace create/delete, rotation/flush/compaction steps, scaled journal rotation and eviction, clean reopen) run under the libc monitor: before EVERY file-mutating or sync call of the run a copy of the real directory is taken (plus sampled torn splits of every write), reopened with the real Database::open and compared with the set of prefix states {acknowledged, acknowledged + op in flight}; every 4th state is reopened twice",
+         "process-crash state enumeration over all classified libc calls of each generated run + prefix-state oracle"),
+ "C03": ("fault_enumeration", "journals of 2-8 commits (single ops, multi-keyspace batches, tombstones, clears, transaction commits, LZ4-compressed values) built by the real code, then cut at EVERY byte offset of the valid region (sampled around record boundaries for journals > 1500 B), once ending there and once zero-padded to the pre-allocated length; recovered state must equal the complete batches before the cut; every third cut also appends to the repaired journal and reopens",
+         "exhaustive journal cut sweep per generated layout"),
+ "C09": ("fault_enumeration", "power-loss adversary: every file reverts to its content at its last fsync/fdatasync (variant 1: a prefix of the unsynced tail survives); a power-loss state is built before EVERY classified libc call of programs with persist(Buffer|SyncData|SyncAll), sync-durability batches, manual journal persist, journal rotation and reopen; everything acknowledged before the last successful sync-type operation must be present and every key must hold a value it held at or after that point",
+         "power-loss state enumeration over all classified calls + durable-lower-bound oracle"),
+ "C10": ("fault_enumeration", "2-3 keyspaces written alternately with a scaled-down journal rotation threshold (512-4096 B) so that runs seal and evict journals, one keyspace lagging, clears and keyspace deletion mixed in; a crash state is taken immediately after EVERY unlink of a journal file and must reopen to the full acknowledged state; unlink order must be ascending; after a final quiesce journal_count() must be 1",
+         "crash-state after every journal unlink + eviction order + journal count"),
+ "C13": ("fault_enumeration", "write-only programs with incompressible > 8 KiB values (so that faults land inside write_raw/write_batch/write_clear, not only in persist); EIO / ENOSPC / short write injected at the n-th journal write, fsync/fdatasync, create or truncate for EVERY n of the run (baseline run counts the calls), transient and persistent disk-full modes; the failing call must report an error, nothing may be acknowledged afterwards, reopen must show the acknowledged prefix with the failed op all-or-nothing",
+         "I/O error sweep over every matching call index"),
+ "C15": ("fault_enumeration", "round trip: keys up to 65535 B, values empty / around the 4096 B compression threshold / 64 KiB, compressible and random, inside batches and alone, tombstones, clears, journal compression on or off at write time and the other setting at read time: exact bytes. Damage: EVERY byte of the journal altered with 6 patterns (all 255 values in thorough classes) on journals whose batches overlap on keys: open must fail or show a prefix state",
+         "journal round trip across compression settings + exhaustive single-byte damage sweep"),
+ "C17": ("exploration", "open / keyspace handle / clone / drop / second-open sequences on all three database kinds with 0-2 real worker threads and queued background work at drop time: second open must fail with Locked (and leave the directory digest unchanged when no worker runs) while any handle lives, and succeed immediately after the last drop with the full content; version marker absent / empty / arbitrary bytes / FJL+v for all v != 3: open refused and directory digest unchanged",
+         "handle-lifetime sequences + version-marker sweep with directory digests"),
 }
 NOTE = "samples, does not enumerate; lsm-tree/flume/dashmap operations are atomic steps; SEQ replaces the worker thread by explicit steps into the real worker_tick"
 hooks_commits = subprocess.check_output(["git","-C","/repo","log","--format=%h","--grep=^verif hooks"], text=True).split()
